@@ -275,19 +275,24 @@ def run(repo: Repo, rep: Report, tier: str) -> None:
              "source (a table source -> its sinks, pairs of sinks, `graph[joining].add(other)`); without that pass `x = a * b; y = c * b` with a, c on one signal gives "
              "(a + c) * b twice")
     pw10 = repo.func("plan_wire_colors")
-    fan = set()
-    for c10_ in calls_in(pw10.node, "add"):
-        # <table>[<node key>].add(<sink id>): a table from a source to the sinks it reaches
-        if isinstance(c10_.func, ast.Attribute) and isinstance(c10_.func.value, ast.Subscript) and isinstance(c10_.func.value.value, ast.Name) and c10_.args and "sink" in norm(c10_.args[0]) \
-                and "sink" not in norm(c10_.func.value.slice) and c10_.func.value.value.id != "graph":
-            fan.add(c10_.func.value.value.id)
+    # name-free: the conflict graph is the table that receives symmetric stores `G[p].add(q)` / `G[q].add(p)`; the per-sink pass draws both ends from one sink's entry
+    # list, the fan-out pass binds one end as the key of a loop over a table's items (the source that fans out) and the other further inside
+    adds10 = [c for c in calls_in(pw10.node, "add") if isinstance(c.func, ast.Attribute) and isinstance(c.func.value, ast.Subscript) and isinstance(c.func.value.value, ast.Name)
+              and isinstance(c.func.value.slice, ast.Name) and c.args and isinstance(c.args[0], ast.Name)]
+    sym10 = [(a, b) for a in adds10 for b in adds10 if a is not b and a.func.value.value.id == b.func.value.value.id
+             and a.func.value.slice.id == b.args[0].id and b.func.value.slice.id == a.args[0].id and a.lineno < b.lineno]
+    pm10 = parents_map(pw10.node)
     passes10 = []
-    for loop in [n for n in walk_local(pw10.node) if isinstance(n, ast.For)]:
-        it = norm(loop.iter)
-        if any(re.search(rf"\b{re.escape(t)}\b", it) for t in fan) and isinstance(loop.target, ast.Tuple) and isinstance(loop.target.elts[0], ast.Name):
-            j = loop.target.elts[0].id
-            if any(isinstance(x, ast.Call) and call_name(x) == "add" and norm(x.func).startswith(f"graph[{j}]") for x in ast.walk(loop)):
-                passes10.append(loop)
+    fan = set()
+    for a, _b in sym10:
+        ends = {a.func.value.slice.id, a.args[0].id}
+        cur = a
+        while cur in pm10:
+            cur = pm10[cur]
+            if isinstance(cur, ast.For) and ".items()" in norm(cur.iter) and isinstance(cur.target, ast.Tuple) and isinstance(cur.target.elts[0], ast.Name) and cur.target.elts[0].id in ends:
+                passes10.append(cur)
+                fan.add(norm(cur.iter)[:40])
+                break
     rep.check(bool(passes10), "C12-R10", "plan_wire_colors separates a fanned-out source from the differing sources of its sinks", f"fan-out table(s) {sorted(fan)}; conflict pass present" if passes10 else
               "conflicts are built per sink only: sources that meet through a third source's fan-out stay on one colour", pw10.loc())
 
